@@ -476,11 +476,17 @@ pub struct SecureChunk {
 
 impl SecureChunk {
     /// Create a new secure chunk with validation metadata
+    /// Offset of the footer relative to the data pointer: the footer holds a u64 and must be
+    /// 8-byte aligned even when the chunk size is not a multiple of 8.
+    fn footer_offset(size: usize) -> usize {
+        (size + 7) & !7
+    }
+
     fn new(size: usize, generation: u32, pool_id: u32) -> Result<Self> {
         let canary = fastrand::u32(..);
         let header_size = std::mem::size_of::<ChunkHeader>();
         let footer_size = std::mem::size_of::<ChunkFooter>();
-        let total_size = header_size + size + footer_size;
+        let total_size = header_size + Self::footer_offset(size) + footer_size;
 
         let layout = Layout::from_size_align(total_size, 8)
             .map_err(|_| ZiporaError::invalid_data("Invalid layout for chunk allocation"))?;
@@ -505,7 +511,7 @@ impl SecureChunk {
         }
 
         // Initialize footer
-        let footer_ptr = unsafe { raw_ptr.add(header_size + size) as *mut ChunkFooter };
+        let footer_ptr = unsafe { raw_ptr.add(header_size + Self::footer_offset(size)) as *mut ChunkFooter };
         unsafe {
             (*footer_ptr) = ChunkFooter {
                 canary,
@@ -565,7 +571,7 @@ impl SecureChunk {
         }
 
         // Validate footer
-        let footer_ptr = unsafe { self.ptr.as_ptr().add(self.size) as *const ChunkFooter };
+        let footer_ptr = unsafe { self.ptr.as_ptr().add(Self::footer_offset(self.size)) as *const ChunkFooter };
         let footer = unsafe { &*footer_ptr };
 
         if footer.magic != CHUNK_FOOTER_MAGIC {
@@ -631,7 +637,7 @@ impl SecureChunk {
 
         let header_size = std::mem::size_of::<ChunkHeader>();
         let footer_size = std::mem::size_of::<ChunkFooter>();
-        let total_size = header_size + self.size + footer_size;
+        let total_size = header_size + Self::footer_offset(self.size) + footer_size;
 
         let raw_ptr = unsafe { self.ptr.as_ptr().sub(header_size) };
         // SAFETY: Layout::from_size_align() cannot fail because:
